@@ -22,6 +22,9 @@ Wrap(S) == { [j |-> "arr", v |-> <<>>], [j |-> "obj", v |-> <<>>] }
 TsOf(y, mo, d, sec, us) == Ts(Join(DaysFromCivil(y, mo, d), sec, us))
 Special == { TsOf(1970, 1, 1, 0, 0), TsOf(999, 12, 31, 86399, 0), TsOf(2024, 2, 29, 3661, 0), TsOf(9999, 12, 31, 86399, 0), TsOf(1, 1, 1, 0, 0),
              Dur(Z), Dur(Mega), Dur(Neg(Mega)), Dur(Mul(FromInt(3661), Mega)), Dur(DurLimUs), Dur(Neg(DurLimUs)),
+             \* values with a fraction of a second: their text must denote them (milliseconds, microseconds, negative, less than a second)
+             TsOf(2009, 2, 13, 84690, 500000), TsOf(2009, 2, 13, 84690, 123456), TsOf(1969, 12, 31, 86399, 999999), TsOf(1, 1, 1, 0, 1),
+             Dur(FromInt(1500000)), Dur(FromInt(-1500000)), Dur(One), Dur(FromInt(-1)), Dur(FromInt(250)), Dur(Sub(DurLimUs, One)),
              Bytes(<<>>), Bytes(<<0>>), Bytes(<<255, 254>>), Bytes(<<97, 98, 99>>), Bytes(<<251, 239, 190, 0>>), Bytes(<<104, 101, 108, 108, 111>>) }
 Init == \/ (doc \in Scalars /\ cel = ToCel(doc) /\ back = Encode(cel))
         \/ (doc = JNull /\ cel \in Special /\ back = Encode(cel))
